@@ -420,3 +420,213 @@ theorem pillar_sum_le_totals (mpe d p : Int) (hd : 0 ≤ d) (hp : 0 ≤ p) (info
       rw [isumZ_append, isumQ_append, own_z, own_q]
       refine ⟨by omega, ?_⟩
       omega
+
+/-! ### liquidity -/
+
+theorem liqSplit_spec (c : Cfg) (st : LiqState) (e : Nat) (Tz Tq : Int) (bz bq : Nat) (o : LiqOut)
+    (h : liqSplit c st e Tz Tq bz bq = some o) :
+    isumZ o.credits + o.mintZ = Tz ∧ isumQ o.credits + o.mintQ = Tq ∧ 0 ≤ o.mintZ ∧ 0 ≤ o.mintQ ∧
+    o.burnZ = bz ∧ o.burnQ = bq := by
+  unfold liqSplit at h
+  simp only at h
+  split at h
+  · cases h
+  · rename_i hg
+    obtain ⟨g1, g2⟩ := not_or.mp hg
+    simp only [Option.some.injEq] at h
+    subst h
+    refine ⟨?_, ?_, ?_, ?_, rfl, rfl⟩ <;> simp only <;> omega
+
+theorem liqBurn_le (st : LiqState) : (liqBurn st).1 ≤ st.balZnn ∧ (liqBurn st).2 ≤ st.balQsr := by
+  unfold liqBurn
+  split
+  · rename_i h; exact h
+  · exact ⟨Nat.zero_le _, Nat.zero_le _⟩
+
+/-- the guard of `computeLiquidityStakeRewardsForEpoch` (`totalFunds > totalAmount → ErrInvalidRewards`) makes the
+    epoch's accounts exact: credits + remainder minted to the contract = emission + what was burned from its balance;
+    what is burned is covered by the balance -/
+theorem liq_stake_sum (c : Cfg) (st : LiqState) (e : Nat) (Tz0 Tq0 : Int)
+    (hT : liquidityRewardForEpoch e = some (Tz0, Tq0)) (hz : 0 ≤ Tz0) (hq : 0 ≤ Tq0) (o : LiqOut)
+    (h : liqStakeOut c st e = some o) :
+    isumZ o.credits + o.mintZ = Tz0 + (o.burnZ : Int) ∧ isumQ o.credits + o.mintQ = Tq0 + (o.burnQ : Int) ∧
+    0 ≤ o.mintZ ∧ 0 ≤ o.mintQ ∧ o.burnZ ≤ st.balZnn ∧ o.burnQ ≤ st.balQsr := by
+  unfold liqStakeOut at h
+  simp only [hT] at h
+  by_cases hh : st.halted = true
+  · simp only [hh, if_true, Option.some.injEq] at h
+    subst h
+    simp [isumZ, isumQ, hz, hq]
+  · simp only [hh, Bool.false_eq_true, if_false] at h
+    obtain ⟨h1, h2, h3, h4, h5, h6⟩ := liqSplit_spec c st e _ _ _ _ o h
+    have := liqBurn_le st
+    rw [h5, h6]
+    omega
+
+/-! ### the composed machine -/
+
+/-- everything minted to `a` along a trace of the composed machine -/
+def mintedTo (a : Addr) : List ROut → Coins
+  | [] => Coins.zero
+  | .minted ms :: os => paid ms a + mintedTo a os
+  | .rewarded _ :: os => mintedTo a os
+  | .refused :: os => mintedTo a os
+  | .mutated :: os => mintedTo a os
+
+theorem updateEpoch_pillars (k : Kind) (rc : RCfg) (cons : Cons) (st : Store) (e : Nat) (o : EpochOut)
+    (h : updateEpoch k rc cons st e = some o) : o.store.pillars = st.pillars := by
+  unfold updateEpoch at h
+  cases k <;> simp only at h
+  all_goals
+    split at h
+    · cases h
+    · obtain ⟨cs, _, rfl⟩ := Option.map_eq_some_iff.mp h; rfl
+
+theorem rewardAll_spec (k : Kind) (rc : RCfg) (cons : Cons) :
+    ∀ (es : List Int) (st st' : Store) (outs : List (Int × EpochOut)), rewardAll k rc cons st es = some (st', outs) →
+      outs.map (·.1) = es ∧ st'.pillars = st.pillars ∧
+      ∀ x ∈ outs, ∃ s : Store, s.pillars = st.pillars ∧ updateEpoch k rc cons s x.1.toNat = some x.2
+  | [], st, st', outs, h => by
+    simp only [rewardAll, Option.some.injEq, Prod.mk.injEq] at h
+    obtain ⟨h1, h2⟩ := h
+    subst h1 h2
+    simp
+  | e :: es, st, st', outs, h => by
+    unfold rewardAll at h
+    cases hu : updateEpoch k rc cons st e.toNat with
+    | none => simp [hu] at h
+    | some o =>
+      cases hr : rewardAll k rc cons o.store es with
+      | none => simp [hu, hr] at h
+      | some r =>
+        obtain ⟨st2, rest⟩ := r
+        simp only [hu, hr, Option.some.injEq, Prod.mk.injEq] at h
+        obtain ⟨h1, h2⟩ := h
+        subst h1 h2
+        obtain ⟨i1, i2, i3⟩ := rewardAll_spec k rc cons es o.store st2 rest hr
+        have hp := updateEpoch_pillars k rc cons st e.toNat o hu
+        refine ⟨by simp [i1], by rw [i2, hp], ?_⟩
+        intro x hx
+        rcases List.mem_cons.mp hx with rfl | hx
+        · exact ⟨st, rfl, hu⟩
+        · obtain ⟨s, hs1, hs2⟩ := i3 x hx
+          exact ⟨s, by rw [hs1, hp], hs2⟩
+
+theorem run_credits (c : Cfg) (v : Variant) : ∀ (cs : List Credit) (s : CState) (rest : List Op),
+    EpochCursor.run c v s (cs.map (fun x => Op.credit x.1 x.2) ++ rest) =
+      ((EpochCursor.run c v (creditAll s cs) rest).1,
+        List.replicate cs.length Out.credited ++ (EpochCursor.run c v (creditAll s cs) rest).2)
+  | [], s, rest => by simp [creditAll]
+  | x :: cs, s, rest => by
+    have ih := run_credits c v cs (credit s x.1 x.2) rest
+    simp only [List.map_cons, List.cons_append, EpochCursor.run, EpochCursor.step, List.length_cons, List.replicate_succ]
+    rw [ih]
+    simp [creditAll]
+
+theorem rewardedOf_credited (n : Nat) (os : List Out) : rewardedOf (List.replicate n Out.credited ++ os) = rewardedOf os := by
+  induction n with
+  | zero => simp
+  | succ n ih => simp only [List.replicate_succ, List.cons_append, rewardedOf]; exact ih
+
+theorem mintedOf_credited (a : Addr) (n : Nat) (os : List Out) :
+    mintedOf a (List.replicate n Out.credited ++ os) = mintedOf a os := by
+  induction n with
+  | zero => simp
+  | succ n ih => simp only [List.replicate_succ, List.cons_append, mintedOf]; exact ih
+
+theorem creditedOf_credits (a : Addr) : ∀ (cs : List Credit) (rest : List Op),
+    creditedOf a (cs.map (fun x => Op.credit x.1 x.2) ++ rest) = creditedTo a cs + creditedOf a rest
+  | [], rest => by simp [creditedTo, Coins.zero_add']
+  | x :: cs, rest => by
+    simp only [List.map_cons, List.cons_append, creditedOf, creditedTo, List.foldr_cons]
+    rw [creditedOf_credits a cs rest]
+    simp only [creditedTo]
+    rw [Coins.add_assoc']
+
+theorem creditedTo_append (a : Addr) (xs ys : List Credit) : creditedTo a (xs ++ ys) = creditedTo a xs + creditedTo a ys := by
+  induction xs with
+  | nil => simp [creditedTo, Coins.zero_add']
+  | cons x xs ih =>
+    simp only [List.cons_append, creditedTo, List.foldr_cons] at ih ⊢
+    rw [ih, Coins.add_assoc']
+
+theorem update_some (k : Kind) (rc : RCfg) (cons : Cons) (s s' : RState) (h : Nat) (ts : Int) (outs : List (Int × EpochOut))
+    (hu : update k rc cons s h ts = some (s', outs)) :
+    ∃ cs' es, EpochCursor.update rc.c (variantOf k) s.cs h ts = some (cs', es) ∧
+      rewardAll k rc cons s.store es = some (s'.store, outs) ∧ s'.cs = creditAll cs' (creditsOf outs) := by
+  unfold update at hu
+  cases h1 : EpochCursor.update rc.c (variantOf k) s.cs h ts with
+  | none => simp [h1] at hu
+  | some r =>
+    obtain ⟨cs', es⟩ := r
+    simp only [h1] at hu
+    cases h2 : rewardAll k rc cons s.store es with
+    | none => simp [h2] at hu
+    | some q =>
+      obtain ⟨st', outs'⟩ := q
+      simp only [h2, Option.some.injEq, Prod.mk.injEq] at hu
+      obtain ⟨e1, e2⟩ := hu
+      subst e1 e2
+      exact ⟨cs', es, rfl, h2, rfl⟩
+
+/-- SIMULATION: a history of the composed machine is a history of the cursor/deposit machine of Model/EpochCursor.lean
+    (`lower`): same cursor, deposits and last-update height at the end, same rewarded epochs, same mints, and the `credit`
+    calls of the lower history are exactly the `addReward` calls the reward computations made -/
+theorem lower_run (k : Kind) (rc : RCfg) (cons : Cons) : ∀ (ops : List ROp) (s : RState),
+    (EpochCursor.run rc.c (variantOf k) s.cs (lower k rc cons s ops)).1 = (run k rc cons s ops).1.cs ∧
+    rewardedOf (EpochCursor.run rc.c (variantOf k) s.cs (lower k rc cons s ops)).2 = rewardedEpochs (run k rc cons s ops).2 ∧
+    (∀ a, mintedOf a (EpochCursor.run rc.c (variantOf k) s.cs (lower k rc cons s ops)).2 = mintedTo a (run k rc cons s ops).2) ∧
+    (∀ a, creditedOf a (lower k rc cons s ops) = creditedTo a (allCredits (run k rc cons s ops).2))
+  | [], s => by simp [lower, run, EpochCursor.run, rewardedOf, rewardedEpochs, epochOuts, mintedOf, mintedTo, creditedOf,
+      allCredits, creditsOf, creditedTo]
+  | .update h ts :: os, s => by
+    cases hu : update k rc cons s h ts with
+    | none =>
+      obtain ⟨i1, i2, i3, i4⟩ := lower_run k rc cons os s
+      simp only [lower, run, step, hu]
+      refine ⟨i1, ?_, ?_, ?_⟩
+      · simpa [rewardedEpochs, epochOuts] using i2
+      · intro a; simpa [mintedTo] using i3 a
+      · intro a; simpa [allCredits, epochOuts] using i4 a
+    | some r =>
+      obtain ⟨s', outs⟩ := r
+      obtain ⟨cs', es, h1, h2, h3⟩ := update_some k rc cons s s' h ts outs hu
+      obtain ⟨r1, _, _⟩ := rewardAll_spec k rc cons es s.store s'.store outs h2
+      obtain ⟨i1, i2, i3, i4⟩ := lower_run k rc cons os s'
+      simp only [lower, run, step, hu]
+      simp only [EpochCursor.run, EpochCursor.step, h1]
+      rw [run_credits, ← h3]
+      refine ⟨i1, ?_, ?_, ?_⟩
+      · simp only [rewardedOf, rewardedOf_credited, i2, rewardedEpochs, epochOuts, List.map_append, r1]
+      · intro a; simp only [mintedOf, mintedOf_credited, i3 a, mintedTo]
+      · intro a
+        simp only [creditedOf, creditedOf_credits, i4 a, allCredits, epochOuts, creditsOf, List.flatMap_append]
+        rw [creditedTo_append]
+  | .collect a :: os, s => by
+    cases hc : collect s.cs a with
+    | none =>
+      have hs : (step k rc cons s (.collect a)).1 = s := by simp [step, hc]
+      obtain ⟨i1, i2, i3, i4⟩ := lower_run k rc cons os s
+      simp only [lower, run, hs]
+      simp only [EpochCursor.run, EpochCursor.step, hc, step]
+      refine ⟨i1, ?_, ?_, ?_⟩
+      · simpa [rewardedOf, rewardedEpochs, epochOuts] using i2
+      · intro b; simpa [mintedOf, mintedTo] using i3 b
+      · intro b; simpa [creditedOf, allCredits, epochOuts] using i4 b
+    | some r =>
+      obtain ⟨ms, cs'⟩ := r
+      have hs : (step k rc cons s (.collect a)).1 = { s with cs := cs' } := by simp [step, hc]
+      obtain ⟨i1, i2, i3, i4⟩ := lower_run k rc cons os { s with cs := cs' }
+      simp only [lower, run, hs]
+      simp only [EpochCursor.run, EpochCursor.step, hc, step]
+      refine ⟨i1, ?_, ?_, ?_⟩
+      · simpa [rewardedOf, rewardedEpochs, epochOuts] using i2
+      · intro b; simp only [mintedOf, mintedTo, i3 b]
+      · intro b; simpa [creditedOf, allCredits, epochOuts] using i4 b
+  | .mutate st :: os, s => by
+    obtain ⟨i1, i2, i3, i4⟩ := lower_run k rc cons os { s with store := st }
+    simp only [lower, run, step]
+    refine ⟨i1, ?_, ?_, ?_⟩
+    · simpa [rewardedEpochs, epochOuts] using i2
+    · intro b; simpa [mintedTo] using i3 b
+    · intro b; simpa [allCredits, epochOuts] using i4 b
